@@ -9,15 +9,21 @@ mkdir -p bin evidence replays
 # VERIF_REPO (optional): check a copy of the repository at another path instead of /repo
 # (used for background runs against a snapshot); the module replace is redirected through an
 # alternate go.mod and nothing in this directory's go.mod changes.
+BIN=bin/vcheck
 if [ -n "$VERIF_REPO" ] && [ "$VERIF_REPO" != "/repo" ]; then
-  sed "s#=> /repo#=> $VERIF_REPO#" go.mod > bin/alt.mod; cp go.sum bin/alt.sum
-  export GOFLAGS="-mod=mod -modfile=$PWD/bin/alt.mod"
+  # private module file and binary, so that concurrent runs against other copies cannot mix
+  sed "s#=> /repo#=> $VERIF_REPO#" go.mod > bin/alt.$$.mod; cp go.sum bin/alt.$$.sum
+  export GOFLAGS="-mod=mod -modfile=$PWD/bin/alt.$$.mod"
+  BIN=bin/vcheck.alt.$$
+  trap 'rm -f bin/alt.$$.mod bin/alt.$$.sum bin/vcheck.alt.$$ bin/build.$$.log' EXIT
 fi
-if ! go build -o bin/vcheck ./cmd/vcheck 2>bin/build.log; then
-  echo "HARNESS-ERROR: build against /repo failed"; cat bin/build.log; exit 2
+if ! go build -o $BIN ./cmd/vcheck 2>bin/build.$$.log; then
+  echo "HARNESS-ERROR: build against the repository failed"; cat bin/build.$$.log; rm -f bin/build.$$.log; exit 2
 fi
+rm -f bin/build.$$.log
 case "$1" in
-  C17|C18) exec ./sched.sh "$@" ;;
-  replay) if grep -q '"property": "C1[78]"' "$2" 2>/dev/null; then exec ./sched.sh "$@"; fi ;;
+  C17|C18) ./sched.sh "$@"; exit $? ;;
+  replay) if grep -q '"property": "C1[78]"' "$2" 2>/dev/null; then ./sched.sh "$@"; exit $?; fi ;;
 esac
-exec ./bin/vcheck "$@"
+./$BIN "$@"
+exit $?
